@@ -291,3 +291,47 @@ Proof.
   - apply (C x Ix). apply nb_spec. exists x, y, c. split; [exact IB|left; tauto].
   - apply (C y Ix). apply nb_sym. apply nb_spec. exists x, y, c. split; [exact IB|left; tauto].
 Qed.
+
+(* ---- converse: every atom of a molecule is joined to the molecule's first atom by a chain of bonds ---- *)
+Inductive conn (b : list (Z * Z * vec)) (s : Z) : Z -> Prop :=
+  | conn_refl : conn b s s
+  | conn_step x l : conn b s x -> In l (nb b x) -> conn b s l.
+Lemma visit_conn b s c1 a1 q u l : conn b s a1 -> In (fst l) (nb b a1) -> (forall x, In x (qat q) -> conn b s x) ->
+  forall x, In x (qat (fst (visit c1 (q, u) l))) -> conn b s x.
+Proof.
+  intros C1 Il Hq x. unfold visit. destruct l as [a cl]. cbn [fst] in Il. destruct (memz a u); cbn [fst]; [|apply Hq].
+  unfold qat. rewrite map_app. intros I. apply in_app_or in I. destruct I as [I|[E|[]]]; [apply Hq; exact I|]. cbn [fst map] in E. subst x.
+  eapply conn_step; [exact C1|exact Il].
+Qed.
+Lemma fold_visit_conn b s c1 a1 links : conn b s a1 -> (forall l, In l links -> In (fst l) (nb b a1)) -> forall q u,
+  (forall x, In x (qat q) -> conn b s x) -> forall x, In x (qat (fst (fold_left (visit c1) links (q, u)))) -> conn b s x.
+Proof.
+  intros C1. induction links as [|l t IH]; intros HL q u Hq; cbn [fold_left]; [exact Hq|].
+  pose proof (visit_conn b s c1 a1 q u l C1 (HL l (or_introl eq_refl)) Hq) as V. destruct (visit c1 (q, u) l) as [q1 u1]. cbn [fst] in V.
+  apply IH; [intros l0 I0; apply HL; right; exact I0|exact V].
+Qed.
+Lemma bfs_conn b s : forall fuel queue unsorted acc, (forall x, In x (atoms_of acc ++ qat queue) -> conn b s x) ->
+  forall x, In x (atoms_of (fst (bfs fuel b queue unsorted acc))) -> conn b s x.
+Proof.
+  induction fuel as [|f IH]; intros queue unsorted acc INV; cbn [bfs].
+  - cbn [fst]. intros x I. apply INV. apply in_or_app. left. exact I.
+  - destruct queue as [|[a1 c1] q]; [cbn [fst]; intros x I; apply INV; apply in_or_app; left; exact I|].
+    assert (C1: conn b s a1) by (apply INV; apply in_or_app; right; left; reflexivity).
+    pose proof (fold_visit_conn b s c1 a1 (get_linked b a1) C1 (fun l I => in_map fst _ _ I) q unsorted) as FV.
+    destruct (fold_left (visit c1) (get_linked b a1) (q, unsorted)) as [q' u']. cbn [fst] in FV. apply IH.
+    intros x I. apply in_app_or in I. destruct I as [I|I].
+    + unfold atoms_of in I. rewrite map_app in I. apply in_app_or in I. destruct I as [I|[E|[]]]; [apply INV; apply in_or_app; left; exact I|].
+      cbn [fst] in E. subst. exact C1.
+    + apply FV; [|exact I]. intros y Iy. apply INV. apply in_or_app. right. right. exact Iy.
+Qed.
+Lemma mols_conn b n : forall fuel unsorted m, In m (mols fuel n b unsorted) -> exists s, forall x, In x (atoms_of m) -> conn b s x.
+Proof.
+  induction fuel as [|f IH]; intros unsorted m I; cbn [mols] in I; [destruct I|]. destruct unsorted as [|a u]; [destruct I|].
+  pose proof (bfs_conn b a n [(a, (0,0,0))] u []) as BC. destruct (bfs n b [(a, (0,0,0))] u []) as [m0 u']. cbn [fst] in BC.
+  destruct I as [E|I]; [|exact (IH u' m I)]. subst. exists a. apply BC. intros x [E|[]]. cbn [fst] in E. subst. apply conn_refl.
+Qed.
+Lemma molecules_connected_l N b m : In m (molecules_m N b) -> exists s, forall x, In x (atoms_of m) -> conn b s x.
+Proof. apply mols_conn. Qed.
+(* a chain of bonds never leaves a set closed under bonding *)
+Lemma conn_closed b S s x : closed b S -> In s S -> conn b s x -> In x S.
+Proof. intros C Is K. induction K as [|x l K IH Il]; [exact Is|exact (C x IH l Il)]. Qed.
